@@ -337,8 +337,9 @@ def run(chk):
     chk.evaluations = sum(len(c["steps"]) * max(1, len(c["cells"]) + len(c["names"]) + len(c["charts"])) for c in allc)
     chk.nontrivial = {json.dumps([[x["s"], x["r"], x["c"], x["f"]] for x in c["cells"]] + c["steps"], sort_keys=True) for c in allc}
     chk.rule = ("a case is a workbook (2-3 sheets incl. 'My Sheet' and O'Brien, 1-3 formula cells, defined names on sheets and at "
-                "workbook level, chart series) plus a history of 1-4 workbook-level insert/remove row/column edits; cases = fixed "
-                "exemplars, every depth-1 behaviour of the bounded TLC model (thorough: + depth 2) and seeded random workbooks with "
+                "workbook level, single-kind and combination charts whose series of every kind are read back) plus a history of 1-4 workbook-level insert/remove row/column edits; cases = fixed "
+                "exemplars (incl. intersections with function-call / parenthesised / name operands and 2- and 3-kind "
+                "combination charts), every depth-1 behaviour of the bounded TLC model (thorough: + depth 2) and seeded random workbooks with "
                 "formulas of depth <= 4 (thorough: 6) edited next to the mentioned coordinates and at the grid limits; distinct = "
                 "different (formulas, history); evaluations = (formula cells + names + charts) x steps judged")
     chk.sample({"cells": [x["f"] for x in allc[0]["cells"]], "steps": allc[0]["steps"],
